@@ -79,6 +79,15 @@ def handle (op : String) (args : List Sx) : Option Sx :=
     let S := runSig (H0 (κ := Nat × Nat)) evs
     pure (.list [ofNat (runRes [] evs).length, ofNat S.saved.length,
       ofBool (decide (S.cur = (H0 (κ := Nat × Nat)).cur))])
+  | "c09.channel", [ops] => do
+    -- a PipeChannel (read end 0, write end 1, both open) under a sequence of close_reader / close_writer / close
+    let ops ← asListOf asSym ops
+    let evOf : String → List (Ev Nat Nat) := fun o =>
+      if o == "closeR" then [.cls 0] else if o == "closeW" then [.cls 1] else if o == "close" then [.cls 1, .cls 0] else []
+    let states := (ops.foldl (fun (acc : List Nat × List Sx) o =>
+      let L := runRes acc.1 (evOf o)
+      (L, acc.2 ++ [Sx.list [ofBool (L.contains 0), ofBool (L.contains 1)]])) ([0, 1], [])).2
+    pure (.list states)
   | _, _ => none
 
 end Driver.C09
